@@ -3,7 +3,7 @@
 # (quick tier, PBSIM_FAST: no minimisation) and record which checks catch them.
 #   tools/seeded_matrix.sh [glob]      (default: all)   -> appends/updates seeded/MATRIX.tsv
 cd /verif || exit 2
-declare -A REL=( [C01]="C01 C02 C13" [C02]="C02 C12 C06" [C03]="C03 C04 C08" [C04]="C04 C14 C05" [C05]="C05 C10" [C06]="C06 C02 C01" [C07]="C07 C08 C05" [C08]="C08 C07" [C10]="C10 C16 C05" [C11]="C11 C06" [C12]="C12 C06" [C13]="C13 C15 C12" [C14]="C14 C08" [C15]="C15 C13" [C16]="C16 C10" [C18]="C18" )
+declare -A REL=( [C01]="C01 C02 C13" [C02]="C02 C12 C06" [C03]="C03 C04 C08" [C04]="C04 C14 C05 C07" [C05]="C05 C10" [C06]="C06 C02 C01" [C07]="C07 C08 C05" [C08]="C08 C07" [C10]="C10 C16 C05" [C11]="C11 C06" [C12]="C12 C06" [C13]="C13 C15 C12" [C14]="C14 C08" [C15]="C15 C13" [C16]="C16 C10" [C18]="C18" )
 out=seeded/MATRIX.tsv
 touch $out
 for d in seeded/${1:-*}/; do
